@@ -55,13 +55,26 @@ var dnTexts = func() []string {
 	return t
 }()
 
-const dnVariants = 4 * 4 * 3 // template x placement x string type
+const dnPlacements = 5
+const dnVariants = 4 * dnPlacements * 3 // template x placement x string type
+
+// dnHome: the template on which the lints about an attribute type actually run (organisation identifier, given name,
+// surname, e-mail: S/MIME; jurisdiction, business category, serial number: EV; everything else: TLS)
+func dnHome(oid string) int {
+	switch oid {
+	case gen.OIDOrgID, gen.OIDGiven, gen.OIDSurname, gen.OIDEmail, "2.5.4.65", "2.5.4.12":
+		return 1
+	case gen.OIDJurC, "1.3.6.1.4.1.311.60.2.1.1", "1.3.6.1.4.1.311.60.2.1.2", gen.OIDBizCat, gen.OIDSerial:
+		return 3
+	}
+	return 0
+}
 
 func dnTextSize(c *mon.Ctx) int {
 	if c.Thorough() {
 		return len(dnOIDs) * len(dnTexts) * dnVariants
 	}
-	return len(dnOIDs) * len(dnTexts) * 2
+	return len(dnOIDs) * len(dnTexts) * 3
 }
 
 func printableSafe(s string) bool {
@@ -91,10 +104,18 @@ func dnTextCase(c *mon.Ctx, k int) (*mon.Obj, string) {
 	k /= len(dnTexts)
 	v := k
 	if !c.Thorough() {
-		// two seeded variants per (attribute, text)
-		v = int(uint64(c.Seed*2654435761+int64(oi*7919+ti*104729+k*15485863)) % dnVariants)
+		// three variants per (attribute, text): the attribute's home template with the text replacing the template's
+		// value, the home template with the text in front of the template's value, and one seeded variant
+		switch k {
+		case 0:
+			v = dnHome(dnOIDs[oi])
+		case 1:
+			v = dnHome(dnOIDs[oi]) + 4*4
+		default:
+			v = int(uint64(c.Seed*2654435761+int64(oi*7919+ti*104729+k*15485863)) % dnVariants)
+		}
 	}
-	tmpl, place, st := v%4, (v/4)%4, v/16
+	tmpl, place, st := v%4, (v/4)%dnPlacements, v/(4*dnPlacements)
 	oid, text := dnOIDs[oi], dnTexts[ti]
 	// string type: 0 = the usual one for the value, 1 = the other of UTF8/Printable (IA5 for e-mail, DC), 2 = BMP / T61 alternating
 	a := gen.A(oid, text)
@@ -157,6 +178,20 @@ func dnTextCase(c *mon.Ctx, k int) (*mon.Obj, string) {
 		name = gen.Name(out...)
 	case 1: // a second value of the type, after the template's attributes
 		name = gen.Name(append(append([]gen.ATV{}, base...), a)...)
+	case 4: // a second value of the type, directly IN FRONT of the template's own value of that type
+		var out []gen.ATV
+		done := false
+		for _, b := range base {
+			if b.OID == oid && !done {
+				out = append(out, a)
+				done = true
+			}
+			out = append(out, b)
+		}
+		if !done {
+			out = append([]gen.ATV{a}, out...)
+		}
+		name = gen.Name(out...)
 	default: // in one multi-valued RDN with the last template attribute
 		var rdns [][]gen.ATV
 		for i, b := range base {
